@@ -66,6 +66,81 @@ CLAIMS = {
         note="That a warm-started run meets the certificate numerically is C01's undecided part.",
         technique="AST/CFG pattern rules with reaching definitions and effect summaries",
     ),
+    "C06": dict(
+        text="Decides, as identities of rational functions over (X, y, Xw, hyper-parameters) "
+             "valid for all inputs: every pair of coordinate-gradient accessors of each datafit "
+             "(scalar, CSC scalar, full, CSC full, X_j . raw_grad; per-task and per-group "
+             "variants) are equal terms; raw_grad is the syntactic derivative of value() and "
+             "raw_hessian that of raw_grad (documented bounds tabled); coordinate gradients are "
+             "sum_i X_ij d value/d Xw_i (+ d value/d w_j); the intercept step is a positive "
+             "multiple of the intercept gradient; lazy attributes set by initialize and "
+             "initialize_sparse agree. Does not decide value() against the docstring formula, "
+             "nor the internals of Cox's risk-set recursions (opaque operators), nor floating "
+             "point agreement.",
+        design_ref="DESIGN.md §2 L5, §3.5 R-SIB/R-DERIV, §4 C06",
+        note="Trusted: identity list of sa/algebra.py, the lifting of CSC column loops to "
+             "mask-weighted sums, domain table (Logistic labels in {-1,1}).",
+        technique="symbolic lifting of NumPy/loop idioms to a rational-function normal form "
+                  "(deterministic canonicalisation), syntactic differentiation, equality by "
+                  "cross-multiplication",
+    ),
+    "C07": dict(
+        text="Decides for every separable penalty whose prox is claimed (L1, L1_plus_L2, "
+             "WeightedL1, MCPenalty, WeightedMCPenalty, IndicatorBox, PositiveConstraint, both "
+             "values of positive): on every order region of the input (branch selected by a "
+             "rational witness, comparison symbolic) a non-zero output satisfies the first-order "
+             "condition of 0.5(u-x)^2 + s*value(u) built from the penalty's own value(); 0 is "
+             "returned exactly when |x| <= s*t with t the kink threshold of value(); outputs are "
+             "non-negative under positive=True; box penalties project. Plus: the positive flag "
+             "reaches every prox helper, divisions by input norms are guarded (zero input). "
+             "Global optimality of the closed forms prox_SCAD, prox_05, prox_2_3, prox_log_sum, "
+             "prox_SLOPE and of block proxes beyond their guards is not claimed.",
+        design_ref="DESIGN.md §3.5 R-REGION/R-THR, §4 C07",
+        note="Witness values only select branches; hyper-parameters are assumed positive and "
+             "s < gamma (admissible step range).",
+        technique="order-region abstract evaluation + symbolic first-order-condition identity "
+                  "on lifted terms",
+    ),
+    "C08": dict(
+        text="Decides for every separable penalty with a score: on every order region of w_j "
+             "the lifted subdiff_distance equals |grad + d value/d w_j| where value is smooth, "
+             "max(0, |grad| - t) (positive: max(0, -grad - t)) at the kink with t the one-sided "
+             "limit of the derivative (score 0 for infinite t), +inf for negative coefficients "
+             "under positive=True, and the normal-cone template for indicator penalties; the "
+             "positive flag has a `w<0 -> inf` branch in every score; divisions in scores and "
+             "fixed-point scores are guarded. Block/group scores are decided only through "
+             "their guards.",
+        design_ref="DESIGN.md §3.5 R-DERIV (penalties), §4 C08",
+        note="Strict and non-strict inequalities are identified (agreement almost everywhere); "
+             "equality tests `w == 0` are exact.",
+        technique="symbolic lifting with indicator-weighted case splitting, syntactic "
+                  "differentiation, region-wise term equality",
+    ),
+    "C09": dict(
+        text="Decides that each coordinate / group / global Lipschitz constant is, as a term, "
+             "a rational multiple >= 1 of sum_i X_ij^2 h_i, ||X_g||_2^2 h or "
+             "||diag(sqrt(h)) X||_2^2 where h is the lifted constant Hessian or the tabled "
+             "supremum of a varying one (Logistic 1/4, Huber 1); dense and CSC variants are "
+             "equal terms (spectral norms are opaque atoms keyed by the matrix). Larger "
+             "constants are accepted, smaller ones are violations. The accuracy of the power "
+             "method is not decided.",
+        design_ref="DESIGN.md §3.5 R-LIPC, §4 C09",
+        note="Cox and SqrtQuadratic are documented bounds (tabled, reason recorded).",
+        technique="lifted-term comparison with constant-ratio extraction",
+    ),
+    "C14": dict(
+        text="Decides the algebraic reductions: WeightedL1[weights:=1] == L1, "
+             "L1_plus_L2[l1_ratio:=1] == L1, WeightedMCPenalty[weights:=1] == MCPenalty (value, "
+             "prox_1d, subdiff_distance, alpha_max, both positivity variants), "
+             "WeightedQuadratic[sample_weights:=1] == Quadratic and QuadraticGroup == Quadratic on "
+             "all shared accessors, group gradient accessors == stacked scalar accessors, as "
+             "equalities of lifted terms; every estimator fits through the same _glm_fit as "
+             "GeneralizedLinearEstimator. Limit reductions, SLOPE vs L1, Efron vs Breslow, Gram "
+             "vs CD and replicated rows are not decided.",
+        design_ref="DESIGN.md §3.5 R-RED, §4 C14",
+        note="Same trusted base as C06.",
+        technique="substitution on lifted terms + normal-form equality",
+    ),
     "C10": dict(
         text="Decides the structural part of storage independence: CSC triples are passed "
              "as (data, indptr, indices) at all call sites (role provenance); every "
